@@ -33,7 +33,10 @@ EXACT_N = 36
 
 
 # ------------------------------------------------------------------------------------------------ data
-def make_frame(rng, outcome=None, balanced=None, big=False):
+INDEX_KINDS = ['range', 'stacked', 'shuffle', 'shift']
+
+
+def make_frame(rng, outcome=None, balanced=None, big=False, idx=None):
     """returns (df_clean, meta).  Columns W0[,W1], S, A, Y, K (stratum code; never given to a model)."""
     n_cov = rng.choice([1, 2, 2])
     arities = [rng.choice([2, 3]) for _ in range(n_cov)]
@@ -62,8 +65,16 @@ def make_frame(rng, outcome=None, balanced=None, big=False):
     rng.shuffle(rows)
     cols = ['W%d' % i for i in range(n_cov)] + ['S', 'A', 'Y', 'K']
     df = pd.DataFrame(rows, columns=cols)
-    idx = rng.choice(['range', 'shift', 'shuffle'])
-    if idx == 'shift':
+    idx = idx or rng.choice(INDEX_KINDS)
+    if idx == 'stacked':
+        # study sample and target stacked with pd.concat without ignore_index: labels repeat across the two parts
+        cnt = {0: 0, 1: 0}
+        ix = []
+        for s_ in df['S']:
+            ix.append(cnt[int(s_)])
+            cnt[int(s_)] += 1
+        df.index = ix
+    elif idx == 'shift':
         df.index = range(500, 500 + len(df))
     elif idx == 'shuffle':
         ix = list(range(len(df)))
@@ -269,7 +280,7 @@ def rel_close(x, y, tol):
 def c16_cases(ctx, n_frames):
     cases = []
     for fid in range(n_frames):
-        df, meta = make_frame(ctx.rng)
+        df, meta = make_frame(ctx.rng, idx=INDEX_KINDS[fid % len(INDEX_KINDS)])
         dj = junk_frame(df, ctx.rng, meta)
         cases.append((fid, df, dj, meta))
     return cases
@@ -287,6 +298,7 @@ def std_part(ctx, fails, cases=None):
         ctx.count('frame:strata=%d' % meta['n_strata'])
         ctx.count('frame:outcome=' + meta['outcome'])
         ctx.count('frame:balanced=%s' % meta['balanced'])
+        ctx.count('frame:index=%s' % meta['index'])
         for kind in ('IPSW', 'GT', 'AIPSW'):
             configs = [(gen, stab, rx) for gen in (True, False)
                        for stab, rx in ([(None, None)] if kind == 'GT' else itertools.product((True, False), (True, False)))]
